@@ -25,7 +25,7 @@ import (
 //     engine without a limit, and a limited evaluation has to either report
 //     an error or deliver exactly that model.
 func runC17Lattice(r *simrt.Run, tier Tier) Outcome {
-	const minDecl = "Decl minv(A, B, C) descr [mode('+', '+', '-'), deferred()].\nminv(A, B, C) :- A < B, C = A.\nminv(A, B, C) :- B <= A, C = B.\n"
+	const minDecl = latticeMinDecl
 	diverges := r.Bool("c17l.diverge")
 	// base facts are either written in the program (they then count against
 	// the limit) or are in the store before evaluation starts
@@ -44,28 +44,8 @@ func runC17Lattice(r *simrt.Run, tier Tier) Outcome {
 			clauses = append(clauses, fmt.Sprintf("best(L2, S2) :- best(L, S), L2 = fn:plus(L, %d), S2 = fn:plus(S, 1).", k1))
 		}
 	} else {
-		decls = append(decls, "Decl dist(X, D) descr [fundep([X], [D]), merge([D], \"minv\")].")
-		keys := 2 + r.Choose(6, "c17l.keys")
-		nEdge := 1 + r.Choose(4, "c17l.edgepreds")
-		base = append(base, Fact{Pred: "start", Args: []Val{NameV("/s")}})
-		decls = append(decls, "Decl start(A).")
-		clauses = append(clauses, "dist(X, 0) :- start(X).")
-		for e := 1; e <= nEdge; e++ {
-			decls = append(decls, fmt.Sprintf("Decl edge%d(A, B, C).", e))
-			if r.Bool("c17l.edge-first") {
-				clauses = append(clauses, fmt.Sprintf("dist(Y, D) :- edge%d(X, Y, W), dist(X, C), D = fn:plus(C, W).", e))
-			} else {
-				clauses = append(clauses, fmt.Sprintf("dist(Y, D) :- dist(X, C), edge%d(X, Y, W), D = fn:plus(C, W).", e))
-			}
-			for j := 1; j <= keys; j++ {
-				r.Tape.Mark()
-				from := "/s"
-				if j > 1 && r.OneIn(3, "c17l.chain") {
-					from = fmt.Sprintf("/k%d", 1+r.Choose(j-1, "c17l.from"))
-				}
-				base = append(base, Fact{Pred: fmt.Sprintf("edge%d", e), Args: []Val{NameV(from), NameV(fmt.Sprintf("/k%d", j)), IntV(int64(1 + r.Choose(50, "c17l.w")))}})
-			}
-		}
+		d, c, b := genShortestLattice(r)
+		decls, clauses, base = append(decls, d...), append(clauses, c...), append(base, b...)
 	}
 	var baseText []string
 	for _, f := range base {
@@ -201,3 +181,34 @@ func runC17Lattice(r *simrt.Run, tier Tier) Outcome {
 	r.Probe("lattice-predicate-under-limit")
 	return Outcome{Nontrivial: errs >= 1, Sample: map[string]any{"lattice_program": strings.Split(strings.TrimSpace(src), "\n"), "diverges": diverges, "limits_tried": lmax, "limits_with_error": errs, "limits_complete": oks}}
 }
+
+// genShortestLattice draws a shortest-distance program over parallel weighted
+// edges read by several rules; dist/2 is a lattice predicate (fundep + merge
+// keeping the smaller distance). Returns declarations, rules and base facts.
+func genShortestLattice(r *simrt.Run) (decls, clauses []string, base []Fact) {
+	decls = append(decls, "Decl dist(X, D) descr [fundep([X], [D]), merge([D], \"minv\")].")
+	keys := 2 + r.Choose(6, "c17l.keys")
+	nEdge := 1 + r.Choose(4, "c17l.edgepreds")
+	base = append(base, Fact{Pred: "start", Args: []Val{NameV("/s")}})
+	decls = append(decls, "Decl start(A).")
+	clauses = append(clauses, "dist(X, 0) :- start(X).")
+	for e := 1; e <= nEdge; e++ {
+		decls = append(decls, fmt.Sprintf("Decl edge%d(A, B, C).", e))
+		if r.Bool("c17l.edge-first") {
+			clauses = append(clauses, fmt.Sprintf("dist(Y, D) :- edge%d(X, Y, W), dist(X, C), D = fn:plus(C, W).", e))
+		} else {
+			clauses = append(clauses, fmt.Sprintf("dist(Y, D) :- dist(X, C), edge%d(X, Y, W), D = fn:plus(C, W).", e))
+		}
+		for j := 1; j <= keys; j++ {
+			r.Tape.Mark()
+			from := "/s"
+			if j > 1 && r.OneIn(3, "c17l.chain") {
+				from = fmt.Sprintf("/k%d", 1+r.Choose(j-1, "c17l.from"))
+			}
+			base = append(base, Fact{Pred: fmt.Sprintf("edge%d", e), Args: []Val{NameV(from), NameV(fmt.Sprintf("/k%d", j)), IntV(int64(1 + r.Choose(50, "c17l.w")))}})
+		}
+	}
+	return
+}
+
+const latticeMinDecl = "Decl minv(A, B, C) descr [mode('+', '+', '-'), deferred()].\nminv(A, B, C) :- A < B, C = A.\nminv(A, B, C) :- B <= A, C = B.\n"
